@@ -60,6 +60,9 @@ mod conn_id;
 #[cfg(feature = "introspection")]
 mod introspection_database;
 mod serial_map;
+#[cfg(feature = "verif-hooks")]
+#[doc(hidden)]
+pub mod verif;
 mod versioned_message;
 
 pub use acceptor::{AcceptError, Acceptor};
